@@ -186,7 +186,7 @@ def h_pipe(cfg):
             L2 = Link(env, 'sched->port', port)
             sched.out = L2
             port.out = L_sink
-            smax = 3200 if cfg['kind'] == 'DRR' else None
+            smax = cfg.get('smax', 3200) if cfg['kind'] == 'DRR' else None
             gens.append(mk_gen(env, 'G0', n, sort, 0, L0, smax=smax) + (L0,))
             gens.append(mk_gen(env, 'G1', cfg.get('n1', 1), sort, 1, L1, smax=smax) + (L1,))
             elements = [('c08.sched', [L0, L1], [L2], {}), ('c08.port', [L2], [L_sink], {'port': port})]
@@ -215,7 +215,7 @@ def h_pipe(cfg):
             L1 = Link(env, 'g1->sw', sw)
             Lo0, Lo1 = Link(env, 'sw0->sink', L_sink), Link(env, 'sw1->sink', L_sink)
             sw.ports[0].out, sw.ports[1].out = Lo0, Lo1
-            smax = 3200 if cfg['server'] == 'DRR' else None
+            smax = cfg.get('smax', 3200) if cfg['server'] == 'DRR' else None
             gens.append(mk_gen(env, 'G0', n, sort, 0, L0, smax=smax) + (L0,))
             gens.append(mk_gen(env, 'G1', 1, sort, 1, L1, smax=smax) + (L1,))
             elements = [('c08.switch', [L0, L1], [Lo0, Lo1], {})]
@@ -301,15 +301,22 @@ def jobs(tier, seed):
         c = {'pipe': 'fanin-sched', 'kind': kind, 'n1': 1}
         if kind == 'WFQ':
             c['float_inexact'] = True
+        if kind == 'DRR' and tier == 'quick':
+            c['smax'] = 1600
         add(c, 50)
     add({'pipe': 'fanout-demux'}, 40)
     for server in ('simple', 'SP', 'WFQ', 'DRR', 'VirtualClock'):
         c = {'pipe': 'switch', 'server': server}
         if server == 'WFQ':
             c['float_inexact'] = True
+        if server == 'DRR' and tier == 'quick':
+            c['smax'] = 1600
         add(c, 40)
     add({'pipe': 'tb-sp', 'peak': None}, 40)
-    add({'pipe': 'tb-sp', 'peak': 64, 'sorts': 'int'}, 60)
+    if tier != 'quick':
+        add({'pipe': 'tb-sp', 'peak': 64, 'sorts': 'int'}, 60)
+    else:
+        add({'pipe': 'tb-sp', 'peak': 64, 'sorts': 'int', 'n': 1}, 60)
     add({'pipe': 'trtb-wire', 'loss': None}, 40)
     add({'pipe': 'trtb-wire', 'loss': 0.5, 'sorts': 'int'}, 40)
     return js
